@@ -581,6 +581,79 @@ pub fn foreign_flush_case(seed: u64, l: &mut Local) {
     monitor_c03(&made, l);
 }
 
+/// Two types are browsed; the search for the other one is stopped (or replaced, or started later) while an
+/// instance of ours is resolved; then the last address of its host runs out, PTR and SRV still live:
+/// ServiceRemoved is owed at that moment all the same (D2).
+pub fn other_search_case(seed: u64, l: &mut Local) {
+    use crate::scen::Svc;
+    let mut rng = crate::util::Rng::new(seed);
+    let mut w = World::new(seed);
+    let stepping = if rng.chance(1, 3) { Stepping::Eager(10) } else { Stepping::Lazy };
+    w.set_stepping(stepping);
+    let sl = slack(stepping);
+    let h = w.add_host(scen::single_v4());
+    w.set_ip_check_interval(h, 3600);
+    let other = "_other._tcp.local.";
+    let what = rng.below(4);
+    if what != 3 {
+        w.browse(h, other);
+    }
+    let Some(chan) = w.browse(h, browser::TY) else { return };
+    w.run_for(rng.below(900));
+    let mut s = Svc::new(browser::TY, if rng.chance(1, 2) { "Ours Downstairs" } else { "ours" }, "ours-host.local", [10, 0, 0, 70]);
+    s.ttl_ptr = 4500;
+    s.ttl_srv = 120;
+    s.ttl_txt = 4500;
+    s.ttl_addr = *rng.pick(&[4u32, 6, 10]);
+    let t_rx = w.now();
+    w.inject_msg(h, 2, scen::peer4(70), &s.announce());
+    if rng.chance(1, 2) {
+        let o = Svc::new(other, "theirs", "theirs-host.local", [10, 0, 0, 71]);
+        w.inject_msg(h, 2, scen::peer4(71), &o.announce());
+    }
+    w.run_for(500 + rng.below(2000));
+    let desc = match what {
+        0 => {
+            w.stop_browse(h, other);
+            "the other type's search stopped"
+        }
+        1 => {
+            w.browse(h, other);
+            "the other type browsed again"
+        }
+        2 => {
+            w.stop_browse(h, other);
+            w.run_for(200);
+            w.browse_cache(h, other);
+            "the other type's search stopped, then a cache-only browse of it"
+        }
+        _ => {
+            w.browse(h, other);
+            "the other type's search started later"
+        }
+    };
+    let due = t_rx + 1000 * s.ttl_addr as u64;
+    w.run_until(due + 3000);
+    l.evaluations += 1;
+    l.distinct.insert(util::fnv_str(&format!("other-search|{what}|{}|{stepping:?}", s.ttl_addr)));
+    if w.trace.deaths().any(|d| matches!(d.ev, Ev::Death { panicked: true, .. })) {
+        l.inconclusive.push(format!("daemon died in a C05 scenario (seed {seed})"));
+        return;
+    }
+    l.act("D2-other-search");
+    let full = s.fullname();
+    let removed: Vec<u64> = w.trace.obs(chan).filter_map(|(e, o)| match o { Obs::Removed(_, n) if *n == full => Some(e.t), _ => None }).collect();
+    // (the crate counts the last second of a record as gone: up to one second early is accepted, as everywhere in C05)
+    let ok = removed.iter().any(|t| *t + 1000 >= due && *t <= due + sl);
+    if !ok {
+        l.violate(
+            Violation::new("D2", format!("D2/no-removal-at-departure/address/{}/after-another-search-changed", if removed.is_empty() { "never" } else { "late" }),
+                format!("{full} lost its last address at +{} ms ({desc} before that); ServiceRemoved came at {:?}", due - crate::world::EPOCH, removed.iter().map(|t| t - crate::world::EPOCH).collect::<Vec<_>>()))
+                .with(json!({"scenario": desc, "trace": scen::witness_window(&w.trace, t_rx, due + 3000, 50)})),
+        );
+    }
+}
+
 /// D4 in isolation: one resolved instance with long TTLs, nothing else going on, a verify
 /// request with timeout T that the responder answers (no removal at all) or not (removal
 /// at T, not before: nothing else can make the daemon look at the instance earlier).
@@ -647,7 +720,7 @@ pub fn run_c05(report: &Report, tier: &Tier) {
          distinct by (shape, event kinds) / (timeout, answered, stepping)",
     );
     report.assume("a removal up to one second before a record's expiry is accepted (the crate treats the last second of a record as gone)");
-    for r in ["D2", "D3", "D4", "D5", "D5-interface-loss"] {
+    for r in ["D2", "D3", "D4", "D5", "D5-interface-loss", "D2-other-search"] {
         report.floor(r, 50);
     }
     let seed = report.seed;
@@ -663,8 +736,12 @@ pub fn run_c05(report: &Report, tier: &Tier) {
         verify_case(util::mix(seed, 0xC05_7000 + i), l);
     });
     // no removal of what is still known on an interface that is left
-    let np: u64 = if tier.thorough { 20_000 } else { 400 };
+    let np: u64 = if tier.thorough { 40_000 } else { 800 };
     run_parallel(report, np, threads(), tier.budget_s * 0.1, |i, l| {
-        interface_loss_case(util::mix(seed, 0xC05_9000 + i), "C05", l);
+        if i % 2 == 0 {
+            interface_loss_case(util::mix(seed, 0xC05_9000 + i), "C05", l);
+        } else {
+            other_search_case(util::mix(seed, 0xC05_A000 + i), l);
+        }
     });
 }
